@@ -305,7 +305,7 @@ func (w *World) connect(migrate bool) error {
 			}
 		}
 		if w.Spec.Real {
-			t.VerifTaskSetSource(node.RealSourceFor(h.ID, spec, info.SrcName, t.VerifTaskSource()))
+			t.VerifTaskSetSource(node.RealSourceFor(h.ID, spec, info.SrcName, t.VerifTaskSource(), info.Batch))
 		} else {
 			h.Src = node.SourceFor(h.ID, spec, info.SrcName)
 			t.VerifTaskSetSource(h.Src)
